@@ -219,7 +219,13 @@ def memoisation(ctx, rid):
     if ctx.ob(rid, "%s|is_checked-callback" % D.key, len(ic) == 1, where=D.span, detail="%d is_checked callback calls" % len(ic)):
         failed = [sw for sw in sorted(ba.live) if _tests_option_field(D, ba, sw, "state::File.failed_runid")]
         gt = [sw for sw in sorted(ba.live) if _discr_of_field(D, ba, sw, "state::File.changed_runid")]
-        after = all(ba.dominates(x, ic[0]) for x in failed + gt) and bool(failed) and bool(gt)
+        gtc = []
+        for sw in sorted(ba.live):
+            bs = ba.bool_switch(sw)
+            if bs and bs[2][0] == "binop" and bs[2][1][1]["op"] == "Gt" and common.reads_field(D, {"k": "use", "op": bs[2][1][1]["a"]}, "state::File.changed_runid"):
+                gtc.append(sw)
+        after = all(ba.dominates(x, ic[0]) for x in failed + gt) and bool(failed) and bool(gt) and bool(gtc) and \
+            ba.path([0], ic, avoid=frozenset(gtc) | frozenset(d.dirty), incl=True) is None
         before = all(ba.dominates(ic[0], r) for r in d.read_stamp) and bool(d.read_stamp)
         ctx.ob(rid, "%s|is_checked-after-failed/changed-before-stamp" % D.key, after and before, where=ctx.where(D, ic[0]),
                detail="memo lookup sits after the failed/changed tests and before the stamp test" if after and before else "memo lookup is misplaced")
@@ -253,6 +259,28 @@ def memoisation(ctx, rid):
     sba = BA.of(scs)
     ok = bool(sba.calls(r"state::File::set_checked")) and bool(sba.calls(r"state::File::save"))
     ctx.ob(rid, "File::set_checked_save|marks-and-saves", ok, where=scs.span, detail="set_checked then save")
+
+
+def memo_placement(ctx, rid):
+    """The is_checked memo is consulted after the failed / changed tests and before the stamp test."""
+    d = Dirt(ctx.prog)
+    D, ba = d.D, d.ba
+    ic = d.cb.get("is_checked", [])
+    if not ctx.ob(rid, "%s|is_checked-callback" % D.key, len(ic) == 1, where=D.span, detail="%d is_checked callback calls" % len(ic)):
+        return
+    failed = [sw for sw in sorted(ba.live) if _tests_option_field(D, ba, sw, "state::File.failed_runid")]
+    disc = [sw for sw in sorted(ba.live) if _discr_of_field(D, ba, sw, "state::File.changed_runid")]
+    gt = []
+    for sw in sorted(ba.live):
+        bs = ba.bool_switch(sw)
+        if bs and bs[2][0] == "binop" and bs[2][1][1]["op"] == "Gt" and common.reads_field(D, {"k": "use", "op": bs[2][1][1]["a"]}, "state::File.changed_runid"):
+            gt.append(sw)
+    after = bool(failed) and bool(disc) and bool(gt) and all(ba.dominates(x, ic[0]) for x in failed + disc) and \
+        ba.path([0], ic, avoid=frozenset(gt) | frozenset(d.dirty), incl=True) is None
+    before = all(ba.dominates(ic[0], r) for r in d.read_stamp) and bool(d.read_stamp)
+    ctx.ob(rid, "%s|memo-after-changed-test-before-stamp" % D.key, after and before, where=ctx.where(D, ic[0]),
+           detail="the memo lookup is reached only through the `changed_runid > max_changed` test (or a Dirty return) and precedes the stamp test" if after and before else
+           "the memo lookup can be reached without comparing changed_runid with the parent's: a dependency rebuilt later than an (older) parent is reported clean to it")
 
 
 def checksum_verdicts(ctx, rid):
